@@ -27,7 +27,7 @@ mod verif_uri_kb {
         assert!(is_u8_uri_ascii(c) == permitted(c), "permitted URI characters");
     }}
 
-    //@harness rsync_parse_kb_n5 Kb fn=Rsync::from_bytes bound="rsync:// followed by at most 5 symbolic octets" timeout=1500
+    //@harness rsync_parse_kb_n5 Kb fn=Rsync::from_bytes bound="rsync:// followed by at most 5 symbolic octets" timeout=1500 thorough
     verif_harness!{ #[kani::unwind(16)] rsync_parse_kb_n5; |t: [u8; 5], n: usize| {
         assume(n <= 5);
         let a = [b'r', b's', b'y', b'n', b'c', b':', b'/', b'/', t[0], t[1], t[2], t[3], t[4]];
